@@ -142,8 +142,7 @@ def stepLine (F : Factors) (m : Meta) (recP : Layout) (e? : Option Epoch) (secon
     | some e =>
       if second ∧ acc.any (·.epoch = e) then some acc
       else (parsePosition F m e (sliceAll recP line)).map fun en => acc ++ [en]
-  else if line.isEmpty then Option.none                        -- `line[0]` IndexError
-  else some acc                                                -- V, EP, EV, EOF, … : ignored
+  else some acc                                                -- V, EP, EV, EOF, …, an empty line (label `line[:1]`): ignored
 
 /-- one epoch block (its lines, rstripped, the first one being the `*` line) -/
 def parseBlock (F : Factors) (m : Meta) (epochFields : List (Option String)) (recP : Layout)
